@@ -415,10 +415,12 @@ def run_sample(g, loc, acc):
     for N in ((2, 3) if nv > 2 else (2, 3, 4)):
         charges = loc.charges_N(N)
         for nk in dict.fromkeys([charges[len(charges) // 2], charges[0]]):
+          for gauge in ('first', 'last', 'asbuilt'):
             psi = MG.random_state(loc, N, nk, 3, (acc.seed, 'c07s', loc.fam, loc.sym, N, nk), integer=False)
             if psi is None:
                 continue
-            psi.canonize_(to='first')
+            if gauge != 'asbuilt':
+                psi.canonize_(to=gauge)     # sample() must bring any input gauge to the one it needs
             v = MG.dense_vec(psi, loc)
             v = v / np.linalg.norm(v)
             # dense probability of each configuration of projector indices
@@ -442,7 +444,7 @@ def run_sample(g, loc, acc):
                     st, out = TC.call(lambda: mps.sample(psi, vecs, number=1, return_probabilities=True))
                 finally:
                     bk.rand = orig
-                case = {'kind': 'sample', 'fam': g['fam'], 'sym': g['sym'], 'N': N, 'nk': list(nk), 'conf': list(conf)}
+                case = {'kind': 'sample', 'fam': g['fam'], 'sym': g['sym'], 'N': N, 'nk': list(nk), 'gauge': gauge, 'conf': list(conf)}
                 if st != 'ok':
                     m = f"sample with forced outcomes {conf}: {st}: {out}"
                 else:
